@@ -100,7 +100,7 @@ func init() {
 	core.Register(&core.Prop{
 		ID:    "C09",
 		Level: "exploration",
-		Rule: "Plus (1 case of 50) trees deeper than PATH_MAX built relative to directory descriptors - a walk that returns nil has reported every entry - and sub-root names that are no path element ('.', '..', '/'). random trees (adversarial name pool with bytes below and above '/', 255-byte names, all entry types incl. sockets, hard-link groups of files and of special files, depth<=6) are created on disk; fsutil.Walk, fsutil.WalkDir, FS.Walk on a sub-target and SubDirFS are run and their callback sequences compared with an independent lstat/readlink/listxattr snapshot sorted component-wise. " +
+		Rule: "Plus (1 case of 50) trees deeper than PATH_MAX built relative to directory descriptors - a walk that returns nil has reported every entry - and sub-root names that are no path element ('.', '..', '/'). random trees (adversarial name pool with bytes below and above '/', 255-byte names, all entry types incl. sockets, extended POSIX access ACLs and default ACLs (system.posix_acl_*) on files and directories in 1 tree of 8, hard-link groups of files and of special files, depth<=6) are created on disk; fsutil.Walk, fsutil.WalkDir, FS.Walk on a sub-target and SubDirFS are run and their callback sequences compared with an independent lstat/readlink/listxattr snapshot sorted component-wise. " +
 			"non-trivial = tree that has an order-sensitive sibling set (directory 'x' with children next to 'x<byte below />...'), a link group or a special file; distinct by tree fingerprint",
 		Assumptions: []string{"runs as root on a file system with mknod, user.* and trusted.* xattrs", "the tree is not modified during the walk"},
 		Cases: func(tier string) int {
@@ -211,6 +211,36 @@ func c09Run(c *core.Ctx) *core.Result {
 	if err := tree.Materialise(src, t); err != nil {
 		r.Inconclusive = "materialise: " + err.Error()
 		return r
+	}
+	// POSIX ACLs: attributes of the system.* namespace the kernel lists like
+	// any other (an extended access ACL on a file or directory, a default ACL
+	// on a directory). The snapshot below is taken afterwards.
+	if ar := core.NewRand(core.Mix(c.Seed, "C09-acl", c.Index)); ar.P(1, 8) {
+		acl := func(named uint32) []byte {
+			b := []byte{2, 0, 0, 0}
+			ent := func(tag, perm uint16, id uint32) {
+				b = append(b, byte(tag), byte(tag>>8), byte(perm), byte(perm>>8), byte(id), byte(id>>8), byte(id>>16), byte(id>>24))
+			}
+			ent(0x01, 6, 0xffffffff)
+			ent(0x02, 4, named)
+			ent(0x04, 4, 0xffffffff)
+			ent(0x10, 4, 0xffffffff)
+			ent(0x20, 0, 0xffffffff)
+			return b
+		}
+		for i := range t.Entries {
+			e := &t.Entries[i]
+			if (e.Type != tree.File && e.Type != tree.Dir) || !ar.P(1, 3) {
+				continue
+			}
+			full := filepath.Join(src, e.Path)
+			if unix.Lsetxattr(full, "system.posix_acl_access", acl(1234), 0) == nil {
+				r.Count("entries_with_an_extended_access_acl", 1)
+			}
+			if e.Type == tree.Dir && ar.P(1, 2) && unix.Lsetxattr(full, "system.posix_acl_default", acl(4321), 0) == nil {
+				r.Count("directories_with_a_default_acl", 1)
+			}
+		}
 	}
 	// mount points inside the tree: inode numbers are unique per file system
 	// only, and two fresh tmpfs instances hand out the same ones. A file of
